@@ -2395,6 +2395,14 @@ vbi_decode_teletext(vbi_decoder *vbi, uint8_t *buffer)
 			case PAGE_FUNCTION_LOP:
 				memcpy(cvtp->data.unknown.raw[0], p, 40);
 
+				/* The cached copy of a page received without
+				   X/26 packets ends before the enhancement
+				   triplets, unused triplets must read as
+				   termination markers, not as zero. */
+				if (0 == vtp->x26_designations)
+					memset(cvtp->data.enh_lop.enh, 0xFF,
+					       sizeof(cvtp->data.enh_lop.enh));
+
 			default:
 				break;
 			}
